@@ -31,14 +31,15 @@ READER = {"name": "reader", "quick": 8000, "thorough": 60000}
 RENDER = {"name": "render", "quick": 3000, "thorough": 60000}
 VT = {"name": "vt", "quick": 1500, "thorough": 30000}
 GLUE = {"name": "glue", "quick": 250, "thorough": 4000}
+PTRACE = {"name": "ptrace", "quick": 150, "thorough": 3000}
 
 INPUT_RULE = ("detect: all buffers of <=1 byte and 13x256 (thorough: all) of 2 bytes, all words <=3 (thorough 4) over an 18-byte branch alphabet, every documented key alone/alt/with a tail, all 256 SGR codes x {M,m}, all X10 codes, huge numeric parameters, then seeded structured/mutated/malformed buffers, each with both canHaveMoreData flags; "
               "reader: every documented key between two random events, every event kind at every alignment against the 256-byte buffer, pastes of 0..513 (thorough 4096) bytes cut after the start marker, seeded event streams under whole/full-256/random/byte-wise chunkings. distinct = distinct op lines; non-trivial = not the empty buffer")
 RENDER_RULE = ("render/vt: seeded histories of 1..40 renderer operations (views derived from the previous one: change/append/drop lines, widths W-1/W/W+1, empty and blank lines, taller than H; prints of up to 2W+1 cells; alt switches, ClearScreen, repaint, resizes in alt, mode ops, stop/kill) at W in {1..8,10,12,80}, H in {1..6,8,24}, any initial cursor row; a fixed corpus of the shapes the properties single out runs first. distinct = distinct history lines")
 
 _CFG = {
-    "C01": {"scenarios": ["fold", "term"], "trusted": RUNTIME_TRUST},
-    "C02": {"scenarios": ["cmds"], "trusted": RUNTIME_TRUST},
+    "C01": {"scenarios": ["fold", "term"], "streams": [PTRACE], "trusted": RUNTIME_TRUST},
+    "C02": {"scenarios": ["cmds"], "streams": [PTRACE], "trusted": RUNTIME_TRUST},
     "C03": {"scenarios": ["seq"], "trusted": RUNTIME_TRUST},
     "C04": {"scenarios": ["term"], "trusted": RUNTIME_TRUST},
     "C05": {"scenarios": ["modes", "exec", "pty"], "streams": [GLUE], "trusted": RENDER_TRUST},
@@ -53,7 +54,7 @@ _CFG = {
     "C13": {"scenarios": ["api"], "trusted": RUNTIME_TRUST},
     "C14": {"streams": [RENDER, VT], "rule": RENDER_RULE, "trusted": RENDER_TRUST},
     "C15": {"streams": [READER], "rule": INPUT_RULE, "trusted": INPUT_TRUST},
-    "C16": {"scenarios": ["filter"], "trusted": RUNTIME_TRUST},
+    "C16": {"scenarios": ["filter"], "streams": [PTRACE], "trusted": RUNTIME_TRUST},
     "C17": {"scenarios": ["exec"], "streams": [GLUE], "trusted": RENDER_TRUST + ["input hand-over to the exec'd command depends on cancelreader/epoll semantics: observed on an os.Pipe, not proved"]},
     "C18": {"scenarios": ["pty", "term"], "trusted": RUNTIME_TRUST + ["kernel signal delivery, os/signal.Notify, TIOCGWINSZ/SIGWINCH are outside the model: observed on a pty, not proved"]},
     "C19": {"streams": [RENDER, {"name": "fps", "quick": 2000, "thorough": 100000}], "rule": RENDER_RULE, "trusted": RENDER_TRUST},
